@@ -5,13 +5,15 @@ from __future__ import annotations
 import itertools
 import random
 
-STR_VARS = ["os_name", "sys_platform", "platform_machine", "platform_system", "implementation_name"]
+STR_VARS = ["os_name", "sys_platform", "platform_machine", "platform_system", "implementation_name", "platform_version"]
 STR_POOL = {
     "os_name": ["nt", "posix", "java", ""],
     "sys_platform": ["linux", "linux2", "win32", "darwin", "win"],
     "platform_machine": ["x86_64", "aarch64", "arm64", "x86", "AMD64"],
     "platform_system": ["Linux", "Windows", "Darwin"],
     "implementation_name": ["cpython", "pypy"],
+    # a STRING variable whose values look like versions: "1.0" and "1.0.0" are different strings (they were once compared as versions)
+    "platform_version": ["1.0", "1.0.0", "10.0.19041", "#1 SMP"],
 }
 EXTRAS = ["foo", "bar", "Foo_Bar", "baz"]
 PV = ["2.7", "3.6", "3.7", "3.8", "3.9", "3.10", "3.11", "3"]
